@@ -36,12 +36,14 @@ func c05Start(kind string) *rtp.Header {
 		h.Extension, h.ExtensionProfile = true, 0x1000
 	case "legacy":
 		h.Extension, h.ExtensionProfile = true, 0x1234
-	case "um_onebyte", "um_twobyte", "um_legacy":
+	case "um_onebyte", "um_twobyte", "um_legacy", "um_dup":
 		var raw []byte
 		base := []byte{0x90, 96, 0, 1, 0, 0, 0, 1, 0, 0, 0, 2}
 		switch kind {
 		case "um_onebyte": // id 3 (2 bytes), gap, id 5 (1 byte); payload follows
 			raw = append(base, 0xBE, 0xDE, 0, 2, 0x31, 0xA1, 0xA2, 0x00, 0x50, 0xB1, 0, 0, 9, 9)
+		case "um_dup": // id 5 (AA), id 7 (CC), id 5 again (BB): a wire image may repeat an id
+			raw = append(base, 0xBE, 0xDE, 0, 2, 0x50, 0xAA, 0x70, 0xCC, 0x50, 0xBB, 0, 0, 9, 9)
 		case "um_twobyte": // id 3 (0 bytes), id 200 (3 bytes)
 			raw = append(base, 0x10, 0x00, 0, 2, 3, 0, 200, 3, 0xC1, 0xC2, 0xC3, 0, 9, 9)
 		default:
@@ -87,7 +89,12 @@ func c05Obs(h *rtp.Header) Ev {
 	if h.Extension {
 		prof = int(h.ExtensionProfile)
 	}
-	return Ev{"res": res, "x": h.Extension, "profile": prof, "ids": ids, "vals": vals, "probes": absent}
+	// raw: the underlying ordered list (a wire image may repeat an id; the accessors show the first match)
+	raw := []Ev{}
+	if h.Extension {
+		raw = extList(h)
+	}
+	return Ev{"res": res, "x": h.Extension, "profile": prof, "ids": ids, "vals": vals, "probes": absent, "raw": raw}
 }
 
 func c05Wire(h *rtp.Header) Ev {
